@@ -180,4 +180,14 @@ PROPS = {
         "assumptions": ["verify_tx's verdict (ckb-verification, ckb-script, ckb-vm) is an oracle input of the model; the harness' expected verdicts are by construction of each mutation"],
         "trusted_base": ["modelled: PendingTxs::{push, get, fetch_transaction_hashes_for_broadcast}, send_transaction admission, RelayProtocol::connected, GetRelayTransactions"],
     },
+    "C08": {
+        "ops": [("c08", "RunC08", {"quick": 6, "thorough": 60})],
+        "rule": "generated sync histories on a whole client (first-run initialisation, handshake / tip update, fork switch with rollback, set_scripts all / partial / delete, "
+                "filter batches, block proofs and downloads with indexing); the crash-free run counts the database writes of every operation through the guarded hook in "
+                "storage.rs; then for every operation and every write boundary in it (quick: at most 6 per operation, thorough: all) a fresh client re-runs the history, "
+                "unwinds before that write, is restarted from the store alone and keeps syncing with the honest peer until quiet; the store must open, nothing may abort, "
+                "every script's index must equal the chain up to the number get_scripts reports, and that number and the tip must reach what the crash-free run reaches",
+        "assumptions": ["a RocksDB write (single put / delete / WriteBatch) is atomic and durable in order", "the crash is modelled as an unwind before the write, followed by discarding all in-memory state"],
+        "trusted_base": ["hook: storage.rs verif_hook::before_write (cargo feature verif)"],
+    },
 }
